@@ -1,9 +1,11 @@
 import OW.Props.GenTie
 import OW.Proofs.RealNum
 /-!
-The two literal-identity hypotheses of `OW/Props/GenTie.lean` hold at `ℝ` (where the property theorems are stated), so at
-`ℝ` every `gen_eq_*` is unconditional. (At `Float`, `LitZero` holds by `rfl` — `GenTie.litZero_float`; `NatZero Float`, i.e.
-`Float.ofNat 0 = Float.ofScientific 0 true 1`, is a fact about opaque runtime functions and is covered by execution only.)
+The literal-identity hypotheses `LitZero`, `NatZero`, `Lit1000`, `Lit86400` of `OW/Props/GenTie.lean` hold at `ℝ` (where the
+property theorems are stated), so at `ℝ` the `gen_eq_*` that carry them are unconditional. (At `Float`, `LitZero` holds by
+`rfl` — `GenTie.litZero_float`; the others, e.g. `Float.ofNat 0 = Float.ofScientific 0 true 1`, are facts about opaque runtime
+functions: `GenTie.litChecks` evaluates them when GenTie.lean is compiled.) `TwoPi` and `AnnualToDaily` (gen_eq_UsleFine,
+gen_eq_SednetGully) identify two decimal spellings of one float64 that are different reals: no `ℝ` corollary.
 -/
 namespace OW.Props.GenTie
 open OW OW.Kernels OW.Gen.K
@@ -24,5 +26,38 @@ theorem gen_eq_InstreamCoarseSediment_real (deltaT channelStore storedMass a b c
     instreamCoarseSediment.step deltaT channelStore storedMass a b c =
       (let r := InstreamCoarseSediment.step deltaT (channelStore, storedMass) (a, b, c); (r.1, r.2.loadDownstream)) :=
   (gen_eq_InstreamCoarseSediment natZero_real deltaT channelStore storedMass a b c).2.2
+
+theorem lit1000_real : Lit1000 ℝ := by unfold Lit1000; rw [RealNum.ofNat_eq]; norm_num
+
+theorem lit86400_real : Lit86400 ℝ := by unfold Lit86400; rw [RealNum.ofNat_eq]; norm_num
+
+/-- `gen_eq_StorageDissolvedDecay` (the delegated branch) at `ℝ`, unconditionally -/
+theorem gen_eq_StorageDissolvedDecay_real (ism dt dsd ari bff mfrt sm a b c d : ℝ) :
+    storageDissolvedDecay.delegateStep ism dt dsd ari bff mfrt sm a c d =
+      (let r := StorageDissolvedDecay.stepOff dt sm (a, b, c, d); (r.1, (r.2.decayedMass, r.2.outflowMass))) :=
+  (gen_eq_StorageDissolvedDecay litZero_real ism dt dsd ari bff mfrt sm a b c d).2.2.2.1
+
+/-- `gen_eq_InstreamDissolvedNutrient` (one iteration of the decay loop) at `ℝ`, unconditionally -/
+theorem gen_eq_InstreamDissolvedNutrient_real (sm dd psl lh lw ll uv dur tsd psps pv up lat vol out : ℝ) :
+    instreamDissolvedNutrient.step dd psl lh lw ll uv dur tsd psps sm pv up lat vol out =
+      (let r := InstreamDissolvedNutrient.step sm psps lh lw ll uv dur tsd pv (up, lat, vol, out)
+       ((sm, r.1), (r.2.decayed.getD Num.zero, r.2.downstream, r.2.pointSource.getD Num.zero))) :=
+  (gen_eq_InstreamDissolvedNutrient litZero_real natZero_real sm dd psl lh lw ll uv dur 0 0 tsd psps pv up lat vol out).2.2.2.2.2.2.2
+
+/-- `gen_eq_InstreamFineSediment` (one iteration of the main path) at `ℝ`, unconditionally -/
+theorem gen_eq_InstreamFineSediment_real (p : InstreamFineSediment.Params ℝ) (csf tsm up lat loc vol out : ℝ) :
+    instreamFineSediment.step p.bankFullFlow p.fineSedSettVelocityFlood p.floodPlainArea p.linkWidth p.linkLength p.linkSlope
+        p.bankHeight p.propBankHeightForFineDep p.sedBulkDensity p.manningsN p.fineSedSettVelocity p.fineSedReMobVelocity
+        p.durationInSeconds (InstreamFineSediment.maxStorage p) csf tsm up lat loc vol out =
+      (let r := InstreamFineSediment.stepMain p (csf, tsm) (up, lat, loc, vol, out)
+       (r.1, (r.2.loadDownstream, r.2.loadToFloodplain, r.2.loadToChannelDeposition, r.2.floodplainDepositionFraction,
+              r.2.channelDepositionFraction))) :=
+  (gen_eq_InstreamFineSediment lit1000_real lit86400_real p csf tsm up lat loc vol out).2.2.2.2
+
+/-- `gen_eq_ClimateVariables` (one iteration, including the bisection) at `ℝ`, unconditionally -/
+theorem gen_eq_ClimateVariables_real (elevation pa t rh : ℝ) :
+    climateVariables.step elevation pa t rh =
+      (let r := Climate.sample pa t rh; (r.vaporPressure, r.dewPoint, r.wetBulb, r.deltaT)) :=
+  (gen_eq_ClimateVariables natZero_real elevation pa t rh 0 0 0 0).2.2.2.2.2.2.2.2.2
 
 end OW.Props.GenTie
